@@ -5,6 +5,7 @@ package main
 // reachability.
 
 import (
+	"go/constant"
 	"go/token"
 	"go/types"
 	"sort"
@@ -262,4 +263,13 @@ func methodNames(t types.Type) []string {
 	}
 	sort.Strings(out)
 	return out
+}
+
+type constantValue = constant.Value
+
+// lambdaIsLn2OverHalflife: v * halflife == ln 2 (to float64 precision).
+func lambdaIsLn2OverHalflife(v constant.Value, halflife int64) bool {
+	prod := constant.BinaryOp(v, token.MUL, constant.MakeInt64(halflife))
+	f, _ := constant.Float64Val(prod)
+	return f > 0.6931471805599452 && f < 0.6931471805599454
 }
